@@ -44,6 +44,20 @@ def gen(tier, rng):
             out.append("run %s slice %s T bits" % (m, hx(enc)))
             out.append("run %s slice %s T bitsskip" % (m, hx(enc)))
             out.append("run %s slice %s tv X bits" % (m, hx(enc)))
+    # truncated encodings: the announced length reaches beyond the octets that are there (top level, and
+    # inside a parent that announces them too). Take and skip must agree there as well (added after seeded
+    # change C19-5 was found to be caught only by a cross-stream sample).
+    for m in modes:
+        for c in (b"\x00", b"\x00\xaa", b"\x03\xa8", b"\x07\x80\x00", b"\x00" + bytes(range(1, 20)), b"\x01", b"\x08\x00"):
+            for extra in (1, 2, 5, 200):
+                enc = b"\x03" + length(len(c) + extra) + c
+                for rd in ("T bits", "T bitsskip", "tv X bits", "tv X bitsskip"):
+                    out.append("run %s slice %s %s" % (m, hx(enc), rd))
+                    out.append("run %s stingy %s %s" % (m, hx(enc), rd))
+                seq = b"\x30" + length(len(enc) + extra) + enc
+                out.append("run %s slice %s tc { T bits }" % (m, hx(seq)))
+                out.append("run %s slice %s tc { T bitsskip }" % (m, hx(seq)))
+                out.append("run %s bytes %s tc { T bitsskip }" % (m, hx(seq)))
     B = [0x00, 0x01, 0x7f, 0x80, 0xaa, 0x55, 0xfe, 0xff]
     datas = [b""] + [bytes([a]) for a in range(256)]
     datas += [bytes([a, b]) for a in B for b in range(256)] + [bytes([a, b, c]) for a in B for b in B for c in B]
